@@ -1159,6 +1159,9 @@ func (e *Engine) lintGhostFrames() {
 			return // modifies * alone: stable ghosts included
 		}
 		have := listed(fs)
+		if !fs.HasMod && len(fs.Ensures) > 0 && !fs.Extern {
+			fs.RiskyFrame = true
+		}
 		for _, c := range fs.Ensures {
 			cur, old := map[string]bool{}, map[string]bool{}
 			mentions(c.E, false, cur, old)
@@ -1167,6 +1170,7 @@ func (e *Engine) lintGhostFrames() {
 				// contradicts "unchanged" for some pre-state, so the ghost belongs to the frame
 				if !have[g] && everModified[g] {
 					have[g] = true
+					fs.RiskyFrame = true
 					fs.Modifies = append(fs.Modifies, &EIdent{Name: g})
 					e.specLint = append(e.specLint, fmt.Sprintf("%s: %s speaks about the new value of stable ghost %s: listed in its frame implicitly", c.Line, shortCallee(name), g))
 				}
